@@ -100,6 +100,8 @@ def families(table):
         "or": Fam("or", 2, 0, lambda a, b: a | b),
         "and": Fam("and", 2, 1, lambda a, b: a & b),
         "cp": Fam("cp", 10, 0, flat_merge, arith=True),
+        # product of a must-bit (intersection) and a may-bit (union): code 2*must+may, Ident = 2
+        "ao": Fam("ao", 4, 2, lambda a, b: 2 * ((a >> 1) & (b >> 1)) + ((a | b) & 1)),
         "nil": Fam("nil", 25, 0, nilpair),
         "n5": Fam("n5", 5, 0, n5),
     }
@@ -156,8 +158,25 @@ def parse_vec(s):
 
 
 # ------------------------------------------------------------------ dense cases
-IMPLS = {"or": ["bits", "dm", "map"], "and": ["dm", "map"], "cp": ["dm", "map"], "nil": ["dm"]}
+# fact representations per element lattice. bits/dm/map/nil-dm have Ident() = the Go zero value
+# (0, nil slice, nil map); inv, and/bits, arr, prod have an Ident() that is NOT the zero value
+# (complemented bitset, all-ones bitset, array with bottom stored as 1, (all-ones, empty) pair).
+IMPLS = {"or": ["bits", "inv", "dm", "map"], "and": ["bits", "bits", "dm", "map"], "cp": ["arr", "arr", "dm", "map"],
+         "ao": ["prod", "prod", "dm", "map"], "nil": ["dm"]}
+NONZERO_IDENT = {"or/inv", "and/bits", "cp/arr", "ao/prod"}
 IDS = ["int", "cmp", "str"]
+
+
+def model_line(go_line):
+    """the model driver's input for a harness line. For dm/map facts every second case (by a
+    hash of the line) runs the solver model over the dmLat/mapLat representation itself
+    (lat@dm / lat@map), the others over canonical k-vectors."""
+    import zlib
+    t = go_line.split(" ")
+    impl, rest = t[0], t[2:]
+    if impl in ("dm", "map") and zlib.crc32(go_line.encode()) & 1:
+        rest = [rest[0], rest[1] + "@" + impl] + rest[2:]
+    return " ".join(rest)
 
 
 class DenseCase:
@@ -226,20 +245,25 @@ def gen_op(rng, fam, k):
 
 def gen_dense(rng, fams, big):
     c = DenseCase()
-    c.lat = rng.choice(["or", "or", "and", "cp", "cp", "cp", "nil", "nil"])
+    c.lat = rng.choice(["or", "or", "and", "and", "cp", "cp", "cp", "ao", "ao", "nil", "nil"])
     fam = fams[c.lat]
     c.k = 1 + rng.below(4)
     r = rng.below(100)
     if r < 30:
         c.n = 1 + rng.below(4)
-    elif r < 85:
+    elif r < 82:
         c.n = 5 + rng.below(4)
-    elif r < 99:
+    elif r < 96:
         c.n = 9 + rng.below(8 if big else 4)
     else:
-        c.n = 60 + rng.below(80)  # beyond one 64-bit word of nodeHeap.inQueue
+        c.n = 65 + rng.below(136)  # 65..200: two to four 64-bit words of nodeHeap.inQueue
     n = c.n
-    shape = rng.choice(["random", "random", "sparse", "dense", "chain", "islands", "irreducible"])
+    large = n >= 65
+    if large:
+        shape = rng.choice(["longback", "longback", "revchain", "multientry", "nestedloops", "islands", "irreducible", "random"])
+    else:
+        shape = rng.choice(["random", "random", "sparse", "dense", "chain", "islands", "irreducible", "longback", "revchain",
+                            "multientry", "nestedloops"])
     edges = []
     if shape == "chain":
         for i in range(n - 1):
@@ -247,6 +271,51 @@ def gen_dense(rng, fams, big):
         for _ in range(rng.below(n + 1)):
             a = rng.below(n)
             edges.append((a, rng.below(a + 1)))  # back edges / self loops
+    elif shape == "longback":
+        # one long chain with back edges spanning (almost) all of it, some crossing word boundaries
+        for i in range(n - 1):
+            edges.append((i, i + 1))
+        edges.append((n - 1, 0))
+        for _ in range(1 + rng.below(4)):
+            a = n - 1 - rng.below(max(1, n // 4))
+            edges.append((a, rng.below(max(1, n // 4))))
+        for _ in range(rng.below(4)):
+            a = rng.below(n)
+            edges.append((a, rng.below(n)))
+    elif shape == "revchain":
+        # the chain runs against the node numbering (n-1 -> ... -> 0): priorities are the reverse of
+        # the ids; extra edges go forward in the chain (back in the numbering) and back
+        for i in range(n - 1, 0, -1):
+            edges.append((i, i - 1))
+        for _ in range(1 + rng.below(5)):
+            a, b = rng.below(n), rng.below(n)
+            edges.append((a, b))
+    elif shape == "multientry" and n >= 4:
+        # a cycle entered at several different nodes from several roots (multi-entry region, irreducible)
+        perm = rng.shuffle(list(range(n)))
+        cl = 2 + rng.below(min(n - 2, 6))
+        cyc, rest = perm[:cl], perm[cl:]
+        for i in range(cl):
+            edges.append((cyc[i], cyc[(i + 1) % cl]))
+        nroots = 1 + rng.below(min(len(rest), 4))
+        for r0 in rest[:nroots]:
+            edges.append((r0, rng.choice(cyc)))
+            if rng.chance(1, 2):
+                edges.append((r0, rng.choice(cyc)))
+        for x in rest[nroots:]:
+            edges.append((rng.choice(cyc + rest[nroots:]), x))
+        for _ in range(rng.below(3)):
+            edges.append((rng.choice(cyc), rng.choice(rest)))
+        edges = [(a, b) for (a, b) in edges if b not in rest[:nroots]]  # roots stay without predecessors
+    elif shape == "nestedloops":
+        # chain with properly nested back edges (loop nest) and an exit
+        for i in range(n - 1):
+            edges.append((i, i + 1))
+        lo, hi = 0, n - 1
+        while hi - lo >= 1:
+            edges.append((hi, lo))
+            lo += 1 + rng.below(max(1, (hi - lo) // 3 + 1))
+            hi -= 1 + rng.below(max(1, (hi - lo) // 3 + 1)) if hi - lo > 1 else 1
     elif shape == "irreducible" and n >= 3:
         # entry 0 jumps into both nodes of a cycle a<->b, rest random
         perm = rng.shuffle(list(range(n)))
@@ -256,7 +325,7 @@ def gen_dense(rng, fams, big):
             edges.append((rng.below(n), rng.below(n)))
     else:
         m = {"random": rng.below(2 * n + 1), "sparse": rng.below(n + 1), "dense": n + rng.below(2 * n + 1),
-             "islands": rng.below(2 * n + 1), "irreducible": rng.below(2 * n + 1)}[shape]
+             "islands": rng.below(2 * n + 1)}.get(shape, rng.below(2 * n + 1))
         for _ in range(m):
             edges.append((rng.below(n), rng.below(n)))
         if shape == "islands" and n >= 2:
@@ -277,9 +346,10 @@ def gen_dense(rng, fams, big):
             c.entry[b] = [rng.below(fam.size) for _ in range(c.k)]
     by_pair = {}
     c.trs = []
+    pid = 3 if large else 7  # large graphs: more identity edges, so facts travel far
     for e in edges:
         if e not in by_pair:
-            if rng.chance(1, 7):
+            if rng.chance(pid - 1 if large else 1, pid):
                 by_pair[e] = []
             else:
                 by_pair[e] = [gen_op(rng, fam, c.k) for _ in range(1 + rng.below(3))]
@@ -573,7 +643,13 @@ def gen_sparse(rng, table):
         tabs.append("b:" + show_vec(monotone_closure_binary(fam, f)))
     params = "%d,%d" % (rng.below(fam.size), rng.below(fam.size))
     src = gen_source(rng)
-    return "sparse %s %s %s %s" % (lat, params, ";".join(tabs), src.encode().hex()), src
+    # two thirds of the programs get multi-mapping transfers (seed mm > 0, see sparse.go)
+    mm = 0 if rng.chance(1, 3) else 1 + rng.below(1000)
+    return "sparse %s %s %s %s %d" % (lat, params, ";".join(tabs), src.encode().hex(), mm), src
+
+
+def parse_xmaps(s):
+    return [] if s == "-" else [tuple(int(x) for x in kv.split("=")) for kv in s.split(",")]
 
 
 def parse_sparse_dump(dump):
@@ -582,9 +658,10 @@ def parse_sparse_dump(dump):
     n, nvals = int(n), int(nvals)
     ins = []
     for s in instrs.split(";"):
-        k, ops, refs = s.split(":")
+        k, ops, refs, pre, post = s.split(":")
         ins.append((k, [] if ops == "-" else [int(x) for x in ops.split(",")],
-                    [] if refs == "-" else [int(x) for x in refs.split(",")]))
+                    [] if refs == "-" else [int(x) for x in refs.split(",")],
+                    parse_xmaps(pre), parse_xmaps(post)))
     val0 = {}
     if init != "-":
         for kv in init.split(","):
@@ -598,7 +675,8 @@ def parse_sparse_dump(dump):
 
 
 def sparse_eval(fam, ins, tb, val, i):
-    k, ops, _ = ins[i]
+    """the state of instruction i's own mapping (None: no own mapping)."""
+    k, ops = ins[i][0], ins[i][1]
     if k == "phi":
         d = fam.bot
         for o in ops:
@@ -614,7 +692,14 @@ def sparse_eval(fam, ins, tb, val, i):
     return None
 
 
+def sparse_maps(fam, ins, tb, val, i):
+    """all mappings (value, state) instruction i's transfer returns on `val`, in order."""
+    own = sparse_eval(fam, ins, tb, val, i)
+    return list(ins[i][3]) + ([] if own is None else [(i, own)]) + list(ins[i][4])
+
+
 def kleene_sparse(fam, n, nvals, ins, val0, tb):
+    """reference least fixpoint: round-robin over all instructions and all their mappings."""
     val = [val0.get(v, fam.bot) for v in range(nvals)]
     rounds = 0
     while True:
@@ -623,12 +708,52 @@ def kleene_sparse(fam, n, nvals, ins, val0, tb):
             return None
         ch = False
         for i in range(n):
-            d = sparse_eval(fam, ins, tb, val, i)
-            if d is not None and d != val[i]:
-                val[i] = d
-                ch = True
+            for (w, x) in sparse_maps(fam, ins, tb, val, i):
+                if x != val[w]:
+                    val[w] = x
+                    ch = True
         if not ch:
             return val
+
+
+def sparse_hypotheses(fam, n, nvals, ins, val0, tb):
+    """probe the hypotheses of the sparse theorems (SparseM.Spec) on the dump: use-def consistency
+    of the IR, agreeing writers, `enq` (every reader of a mapped value whose state can change is a
+    referrer of each of its writers), `init_le`. Returns a list of broken ones."""
+    broken = []
+    for j in range(n):
+        for o in ins[j][1]:
+            if o < n and j not in ins[o][2]:
+                broken.append("use-def")
+    v0 = [val0.get(v, fam.bot) for v in range(nvals)]
+    writers = {}   # value -> list of (instr, const or None)
+    for i in range(n):
+        for (w, x) in ins[i][3] + ins[i][4]:
+            writers.setdefault(w, []).append((i, x))
+        if ins[i][0] != "none":
+            writers.setdefault(i, []).append((i, None))
+    readers = {}
+    for j in range(n):
+        if ins[j][0] != "none":
+            for o in ins[j][1]:
+                readers.setdefault(o, set()).add(j)
+    for u, ws in writers.items():
+        consts = set(x for (_, x) in ws)
+        if len(consts) > 1:
+            broken.append("writers-disagree")
+            continue
+        x = next(iter(consts))
+        if x is not None and x == v0[u]:
+            continue  # stable mapping: never changes the state
+        if x is not None and not fam.le(v0[u], x):
+            broken.append("init-not-below")
+        if x is None and v0[u] != fam.bot:
+            broken.append("init-not-bottom")
+        for (i, _) in ws:
+            for j in readers.get(u, ()):
+                if j not in ins[i][2]:
+                    broken.append("reader-not-referrer")
+    return sorted(set(broken))
 
 
 def sparse_oracle_worker(args):
@@ -642,27 +767,35 @@ def sparse_oracle_worker(args):
         dump, r = out.split(" => ")
         lat, n, nvals, ins, val0, tb = parse_sparse_dump(dump)
         fam = sparse_fam(lat, table)
-        real = [int(x) for x in r[len("val="):].split(",")]
+        reals = [[int(x) for x in rr[len("val="):].split(",")] for rr in r.split(" ~ ")]
         lfp = kleene_sparse(fam, n, nvals, ins, val0, tb)
         if lfp is None:
             res.append(("noconv", dump))
             continue
         bad = []
+        targets = set()
         for i in range(n):
-            d = sparse_eval(fam, ins, tb, real, i)
-            if d is not None and d != real[i]:
-                bad.append("value of instruction %d (%s) is %d, its equation gives %d" % (i, ins[i][0], real[i], d))
-        for v in range(nvals):
-            if (v >= n or ins[v][0] == "none") and real[v] != val0.get(v, fam.bot):
-                bad.append("value %d is not defined by an instruction with a mapping but changed to %d" % (v, real[v]))
-        # hypotheses about the IR (use-def consistency)
-        wf = True
-        for j in range(n):
-            for o in ins[j][1]:
-                if o < n and j not in ins[o][2]:
-                    wf = False
+            for (w, _) in sparse_maps(fam, ins, tb, lfp, i):
+                targets.add(w)
+        for ri, real in enumerate(reals):
+            tag = "" if len(reals) == 1 else "run %d: " % ri
+            for i in range(n):
+                for (w, x) in sparse_maps(fam, ins, tb, real, i):
+                    if real[w] != x:
+                        if w == i:
+                            bad.append("%svalue of instruction %d (%s) is %d, its equation gives %d" % (tag, i, ins[i][0], real[w], x))
+                        else:
+                            bad.append("%sinstruction %d maps value %d to %d, but its final state is %d" % (tag, i, w, x, real[w]))
+            for v in range(nvals):
+                if v not in targets and real[v] != val0.get(v, fam.bot):
+                    bad.append("%svalue %d is mapped by no transfer but changed to %d" % (tag, v, real[v]))
+        if len(reals) > 1:
+            bad.append("the result depends on the order in which the worklist (a Go map) is visited: %d different final mappings "
+                       "in 3 runs" % len(reals))
+        hyp = sparse_hypotheses(fam, n, nvals, ins, val0, tb)
         nphi = sum(1 for x in ins if x[0] == "phi")
-        res.append(("ok", dump, real, lfp, bad, wf, n, nphi))
+        nmulti = sum(1 for i in range(n) if len(ins[i][3]) + len(ins[i][4]) + (ins[i][0] != "none") > 1)
+        res.append(("ok", dump, reals[0], lfp, bad, hyp, n, nphi, nmulti))
     return res
 
 
@@ -880,7 +1013,7 @@ def run(ctx):
     recs = corpus_recs + [r for ch in gen for r in ch]
     phase("dense_generate_kleene")
     go_lines = [r[0] for r in recs]
-    lean_lines = [l.split(" ", 2)[2] for l in go_lines]
+    lean_lines = [model_line(l) for l in go_lines]
     with ThreadPoolExecutor(max_workers=2) as ex:
         f1 = ex.submit(run_harness, ctx, binp, "dense", go_lines, W)
         f2 = ex.submit(run_model_par, ctx, lean_lines, W)
@@ -894,8 +1027,14 @@ def run(ctx):
         fam = fams[c.lat]
         bump("dense:lat=" + c.lat)
         bump("dense:impl=" + c.impl + "/" + c.ids)
+        bump("dense:fact=" + c.lat + "/" + c.impl)
+        if c.lat + "/" + c.impl in NONZERO_IDENT:
+            bump("dense:ident-not-zero-value")
+        if "@" in model_line(gl).split(" ")[1]:
+            bump("dense:model-run-over-representation=" + c.impl)
         bump("dense:shape=" + tag)
-        bump("dense:n=%s" % ("1-4" if c.n <= 4 else "5-8" if c.n <= 8 else "9-16" if c.n <= 16 else "60+"))
+        bump("dense:n=%s" % ("1-4" if c.n <= 4 else "5-8" if c.n <= 8 else "9-16" if c.n <= 16 else
+                             "65-128" if c.n <= 128 else "129-200"))
         for f in feats:
             bump("dense:feature=" + f)
         if inn is None:
@@ -970,6 +1109,7 @@ def run(ctx):
     sp_model = dict(zip(sp_model_idx, run_model_par(ctx, sp_model_in, W)))
     phase("sparse_model")
     sparse_nontrivial = set()
+    sparse_multi_nontrivial = 0
     sparse_samples = []
     wf_broken = 0
     for i, (line, src, r) in enumerate(zip(sp_lines, sp_srcs, sp_or)):
@@ -991,12 +1131,17 @@ def run(ctx):
                 raise vlib.HarnessError("kleene_sparse does not converge: " + r[1])
             bump("sparse:skipped-unlawful-table")
             continue
-        _, dump, real, lfp, bad, wf, n, nphi = r
+        _, dump, real, lfp, bad, hyp, n, nphi, nmulti = r
         bump("sparse:lat=" + dump.split()[1])
         bump("sparse:instrs=%s" % ("<20" if n < 20 else "20-49" if n < 50 else "50+"))
         bump("sparse:phis=%s" % ("0" if nphi == 0 else "1-3" if nphi <= 3 else "4+"))
-        if not wf:
+        bump("sparse:multi-mapping-instrs=%s" % ("0" if nmulti == 0 else "1-5" if nmulti <= 5 else "6+"))
+        if hyp:
+            # a hypothesis of the theorems does not hold for this program/transfer (the API is then
+            # not used soundly): nothing is claimed, the case is counted only
             wf_broken += 1
+            for hname in hyp:
+                bump("sparse:hypothesis-broken=" + hname)
             continue
         replay_obj["real"] = real
         replay_obj["dump"] = dump
@@ -1016,7 +1161,9 @@ def run(ctx):
             corr.append({"stream": "sparse", "go_line": line, "impl": real, "model": m})
         if nphi > 0 and any(x != 0 for x in real[:n]):
             sparse_nontrivial.add(line)
-        if len(sparse_samples) < 2 and nphi >= 2:
+            if nmulti > 0:
+                sparse_multi_nontrivial += 1
+        if len(sparse_samples) < 2 and nphi >= 2 and nmulti >= 2:
             sparse_samples.append({"source": src, "dump": dump, "real": real})
 
     # ---------------------------------------------------------------- evidence
@@ -1027,9 +1174,11 @@ def run(ctx):
                 "more than 2 rounds; sparse: distinct programs with at least one phi and a non-Ident instruction value",
         "dense_cases": len(recs), "dense_nontrivial": len(dense_nontrivial),
         "sparse_programs": len(sp_lines), "sparse_nontrivial": len(sparse_nontrivial),
+        "sparse_nontrivial_with_multi_mapping_transfers": sparse_multi_nontrivial,
+        "sparse_runs_per_program": 3,
         "lattice_law_triples_on_real_code": triples, "lattice_merge_pairs_vs_model": len(merge_go),
         "nilness_table": table, "generated_lean_rewritten": regenerated,
-        "sparse_ir_usedef_inconsistent": wf_broken,
+        "sparse_hypotheses_broken_programs": wf_broken,
         "histogram": dict(sorted(hist.items())),
         "samples": dense_samples + sparse_samples,
         "correspondence_diffs": len(corr),
@@ -1139,6 +1288,8 @@ def replay(ctx, binp, fams, table):
                 failed.append((gl, r[1]))
             elif r[0] == "noconv":
                 failed.append((gl, "Kleene iteration does not converge over the current nilness table"))
+            elif r[5]:
+                print("replay: hypotheses of the theorems do not hold for this case: %s" % ",".join(r[5]))
             elif r[4] or r[2] != r[3]:
                 failed.append((gl, (r[4] or ["not the least fixpoint"])[0]))
     elif kind == "laws":
